@@ -84,7 +84,7 @@ QJsonObject generate()
     for (int i = 0; i < n; i++) {
         QJsonObject m;
         m["p"] = pick(0, P - 1);
-        m["type"] = pick(0, 3); // fatal would abort
+        m["type"] = chance(12) ? 4 : pick(0, 3); // a fatal message is handed over like any other (through Qt's macros it would abort: the logger subject sends it as critical)
         m["text"] = strToJson(genString(so));
         m["file"] = genCtx(30, true);
         m["func"] = genCtx(40, true);
@@ -298,6 +298,7 @@ std::string run(const QJsonObject &c)
                 // text travels through printf-style formatting: NUL would cut it, so the logger subject replaces it
                 QByteArray safe = utf8; safe.replace('\0', '?');
                 t.text = QString::fromUtf8(safe);
+                if (t.type == 4) t.type = 3;
                 t.ticketBegin = ticket++;
                 QMessageLogger ml(t.fileNull ? nullptr : t.file.constData(), t.line, t.funcNull ? nullptr : t.func.constData(), t.catNull ? "default" : t.cat.constData());
                 switch (t.type) {
